@@ -105,7 +105,7 @@ static std::vector<std::string> cpu_gen(const GenArgs &ga) {
   int e = (int)r.below(10);
   auto name = [&]() -> std::string {
     int k = (int)r.below(10);
-    if (k < 8) return kTargets[k];
+    if (k < 8) return r.chance(1, 12) ? "xtgt0" : kTargets[k];   // xtgt0: a backend the application registered (never executable)
     return k == 8 ? (r.chance(1, 2) ? "nosuchtarget" : "EMPTY") : "SSE";   // EMPTY: the variable is set to the empty string
   };
   if (e < 3) backend = name();
@@ -118,6 +118,9 @@ static std::vector<std::string> cpu_gen(const GenArgs &ga) {
   pl.push_back(strf("env ORC_BACKEND=%s ORC_TARGET=%s ORC_CODE=%s", backend.c_str(), target.c_str(), code.c_str()));
   static const char *progs[] = {"fixed:addw", "fixed:subb", "fixed:mulll", "fixed:copyb"};
   pl.push_back(strf("prog spec=%s ds=%llu", progs[r.below(4)], (unsigned long long)(r.next() >> 20)));
+  // the application may register backends of its own (up to the table's capacity), and the library has helpers
+  // of its own (orc_memcpy) that are compiled through the default path on their first call
+  pl.push_back(strf("app targets=%d helper=%d", (int)r.below(3), (int)r.chance(1, 2)));
   return pl;
 }
 
@@ -193,9 +196,12 @@ static bool listing_is_for(const std::string &t, const char *asmc) {
   return true;
 }
 
+static unsigned xt_flags(void) { return 0; }
+static OrcTarget g_xt[2];
+
 static void cpu_run(const std::vector<std::string> &plan, Child &c) {
   Cpu cpu;
-  std::vector<std::string> env_w, prog_w;
+  std::vector<std::string> env_w, prog_w, app_w;
   for (auto &l : plan) {
     auto w = words(l);
     if (w.empty()) continue;
@@ -206,6 +212,7 @@ static void cpu_run(const std::vector<std::string> &plan, Child &c) {
       cpu.e1edx = kvu(w, "e1edx"); cpu.xcr0 = kvu(w, "xcr0");
     } else if (w[0] == "env") env_w = w;
     else if (w[0] == "prog") prog_w = w;
+    else if (w[0] == "app") app_w = w;
   }
   std::string backend = kv(env_w, "ORC_BACKEND", "-"), otarget = kv(env_w, "ORC_TARGET", "-"), code = kv(env_w, "ORC_CODE", "-");
   setenv("ORC_VERIF_CPUID", strf("%x:%x:%x:%x:%x:%x:%x:%x:%x", vendor_code(cpu.vendor), cpu.maxleaf, cpu.l1ecx, cpu.l1edx, cpu.l7ebx,
@@ -227,6 +234,29 @@ static void cpu_run(const std::vector<std::string> &plan, Child &c) {
   c.event("boot vendor=%s maxleaf=%u model: mmx=%d sse=%d avx=%d default=%s", cpu.vendor.c_str(), cpu.maxleaf, m.mmx, m.sse, m.avx,
           m.def.c_str());
   c.state(fnv(strf("%d%d%d|%s|%s", m.mmx, m.sse, m.avx, backend.c_str(), otarget.c_str())));
+
+  // ---- backends the application registers itself (never executable, so they must change nothing else) ----
+  {
+    int known = 0;
+    for (auto tn : {"c", "c64x-c", "mmx", "sse", "avx", "altivec", "neon", "mips", "arm", "powerpc", "riscv", "lsx", "lasx"})
+      if (orc_target_get_by_name(tn)) known++;
+    int want = (int)kvi(app_w, "targets", 0);
+    static const char *xn[2] = {"xtgt0", "xtgt1"};
+    int nx = 0;
+    for (int i = 0; i < want && i < 2 && known + nx < ORC_N_TARGETS; i++) {
+      memset(&g_xt[i], 0, sizeof g_xt[i]);
+      g_xt[i].name = xn[i];
+      g_xt[i].executable = FALSE;
+      g_xt[i].get_default_flags = xt_flags;
+      orc_target_register(&g_xt[i]);
+      nx++;
+      c.count("boot.application_targets_registered");
+    }
+    if (known + nx == ORC_N_TARGETS) c.count("probe.target_table_exactly_full");
+    for (int i = 0; i < nx; i++)
+      if (orc_target_get_by_name(xn[i]) != &g_xt[i])
+        c.violation("byname", "registered-target-not-found-by-name", strf("orc_target_get_by_name(\"%s\") does not return the backend the application registered (%d built-in + %d registered, capacity %d)", xn[i], known, nx, ORC_N_TARGETS));
+  }
 
   // ---- what the library registered ---------------------------------------------
   for (auto tn : kTargets) {
@@ -355,6 +385,55 @@ static void cpu_run(const std::vector<std::string> &plan, Child &c) {
     }
     orc_program_free(p);
     orc_program_free(twin);
+  }
+
+  // ---- the library's own helper, compiled through the default path on its first call -----------------
+  if (kvi(app_w, "helper", 0) && can_run_here && def && model_exec(m, tname(def))) {
+    Layout before, after;
+    walk_codemem(before);
+    unsigned char src[96], dst[96];
+    for (int i = 0; i < 96; i++) { src[i] = (unsigned char)(i * 37 + 11); dst[i] = 0x5a; }
+    orc_memcpy(dst + 3, src + 5, 61);
+    walk_codemem(after);
+    if (memcmp(dst + 3, src + 5, 61) || dst[2] != 0x5a || dst[64] != 0x5a)
+      c.violation("result", "helper-wrong-result", "orc_memcpy copied wrongly");
+    // the code it was compiled to: the used chunk that was not there before
+    std::vector<const uint8_t *> fresh;
+    std::vector<int> fresh_size;
+    for (size_t ri = 0; ri < after.regions.size(); ri++)
+      for (auto &ch : after.regions[ri].chunks) {
+        if (!ch.used) continue;
+        bool was = false;
+        if (ri < before.regions.size()) for (auto &b : before.regions[ri].chunks) if (b.used && b.offset == ch.offset) was = true;
+        if (!was) { fresh.push_back(after.regions[ri].write_ptr + ch.offset); fresh_size.push_back(ch.size); }
+      }
+    if (fresh.size() == 1) {
+      auto code_for = [&](OrcTarget *t, bool dflt, std::vector<uint8_t> &out) {
+        ProgMeta mm;
+        OrcProgram *q = build_program("fixed:copyb", "helper_twin", &mm);   // orc_memcpy is "copyb d1, s1" on bytes
+        int r2 = dflt ? orc_program_compile(q) : orc_program_compile_for_target(q, t);
+        out.clear();
+        if (ORC_COMPILE_RESULT_IS_SUCCESSFUL(r2) && q->orccode && q->orccode->chunk) out.assign(q->orccode->code, q->orccode->code + q->orccode->code_size);
+        orc_program_free(q);
+      };
+      auto same = [&](const std::vector<uint8_t> &v) { return !v.empty() && (int)v.size() <= fresh_size[0] && !memcmp(v.data(), fresh[0], v.size()); };
+      std::vector<uint8_t> dcode, tcode;
+      code_for(nullptr, true, dcode);
+      if (same(dcode)) c.count("probe.library_helper_compiled_like_the_default_path");
+      else {
+        std::string other;
+        for (auto tn : {"mmx", "sse", "avx"}) {
+          OrcTarget *t = orc_target_get_by_name(tn);
+          if (!t || t == def) continue;
+          code_for(t, false, tcode);
+          if (same(tcode)) other = tn;
+        }
+        if (!other.empty())
+          c.violation("byname", strf("library-helper-compiled-for-other-backend:%s", other.c_str()),
+                      strf("orc_memcpy's code is what compiling its program for '%s' gives, but the default target is '%s' (ORC_BACKEND=%s)", other.c_str(), tname(def).c_str(), backend.c_str()));
+        else c.count("probe.library_helper_code_not_attributable");
+      }
+    } else c.count("probe.library_helper_left_no_single_new_chunk");
   }
 }
 
